@@ -36,6 +36,8 @@ def run(ctx):
             ctx.machinery.append("no seed captured for %s/%s/%s" % (target, proto, seedsel))
             continue
         M = F.mutations(seed, rnd, q, stride=1 if not q else 3)
+        if target in ("response", "discovery"):
+            M = M + F.sticky_behaviours(proto.startswith("v3"))
         n = 4 if not q else 2
         for i in range(n):
             jobs.append((target, proto, seedsel, M[i::n]))
